@@ -47,7 +47,7 @@ def project_output(out):
     return O
 
 
-def run_solve_shard(exe, items, workdir, shard, per_instance_timeout, threads):
+def run_solve_shard(exe, items, workdir, shard, per_instance_timeout, threads, cmd=("solve",)):
     """Run `rsv solve` over items with a watchdog; returns list of per-instance event lists."""
     inp = os.path.join(workdir, "in_%d.ndjson" % shard)
     common.write_ndjson(inp, items)
@@ -58,7 +58,7 @@ def run_solve_shard(exe, items, workdir, shard, per_instance_timeout, threads):
     while skip < len(items):
         outp = os.path.join(workdir, "out_%d_%d.ndjson" % (shard, attempt))
         attempt += 1
-        p = subprocess.Popen([exe, "solve", "--in", inp, "--out", outp, "--skip", str(skip)],
+        p = subprocess.Popen([exe] + list(cmd) + ["--in", inp, "--out", outp, "--skip", str(skip)],
                              stdout=subprocess.DEVNULL, stderr=subprocess.DEVNULL, env=env)
         last_progress = time.time()
         last_size = -1
@@ -106,16 +106,17 @@ def run_solve_shard(exe, items, workdir, shard, per_instance_timeout, threads):
     return results
 
 
-def solve_all(instances, profile, per_instance_timeout=60, shards=None, threads=2):
+def solve_all(instances, profile, per_instance_timeout=60, shards=None, threads=2, cmd=("solve",), extra=None):
     exe = common.build_harness(profile)
-    items = [{"name": I["name"], "input": gen.render(I)} for I in instances]
+    items = [dict({"name": I["name"], "input": gen.render(I)}, **(extra(k, I) if extra else {}))
+             for k, I in enumerate(instances)]
     shards = shards or max(1, min(common.NCPU // threads, (len(items) + 3) // 4))
     workdir = os.path.join(common.WORK, "solve_%d" % os.getpid())
     os.makedirs(workdir, exist_ok=True)
     parts = [items[i::shards] for i in range(shards)]
     results = {}
     with ThreadPoolExecutor(max_workers=shards) as ex:
-        futs = [ex.submit(run_solve_shard, exe, part, workdir, k, per_instance_timeout, threads)
+        futs = [ex.submit(run_solve_shard, exe, part, workdir, k, per_instance_timeout, threads, cmd)
                 for k, part in enumerate(parts) if part]
         for f in futs:
             results.update(f.result())
@@ -137,6 +138,9 @@ def build_trace(instances, results, profile):
         idx = {"mcf": 0, "start": 0, "ls": 0, "transopt": 0, "final": 0, "out": 0}
         prev = 0
         nsteps = 0
+        base = 0
+        ncand = 0
+        nenum = 0
         status = "missing"
         wall = 0
         for e in evs:
@@ -152,23 +156,37 @@ def build_trace(instances, results, profile):
                 idx["out"] = len(trace)
             elif e["ev"] == "panic":
                 trace.append({"ev": "panic", "li": li, "msg": e["msg"]})
+            elif e["ev"] == "rerun":
+                trace.append({"ev": "rerun", "li": li, "pi": idx["ls"], "nsteps": e["nsteps"], "S": e["S"]})
+            elif e["ev"] == "base":
+                trace.append({"ev": "base", "li": li, "S": e["S"]})
+                base = len(trace)
+            elif e["ev"] == "cand":
+                trace.append({"ev": "cand", "li": li, "bi": base, "swap": e["swap"][:60], "S": e["S"]})
+                ncand += 1
+            elif e["ev"] == "candfail":
+                trace.append({"ev": "candfail", "li": li, "swap": e["swap"][:60], "msg": e["msg"]})
+            elif e["ev"] == "enum":
+                trace.append({"ev": "enum", "li": li, "bi": base, "ok": e["ok"], "panic": e["panic"], "n": e["n"],
+                              "logged": e["logged"], "hb": e["hb"], "ha": e["ha"], "msg": e.get("msg", "")})
+                nenum += e["n"]
             elif e["ev"] == "end":
                 status = e["status"]
                 wall = e.get("wall_ms", 0)
-        if status == "ok":
+        if status == "ok" and idx["out"]:
             s = {"ev": "summary", "li": li, "nsteps": nsteps}
             s.update(idx)
             trace.append(s)
         trace.append({"ev": "end", "li": li, "status": status, "profile": profile, "name": I["name"]})
         meta.append({"name": I["name"], "first": li, "last": len(trace), "status": status,
-                     "wall_ms": wall, "nsteps": nsteps, "profile": I["profile"]})
+                     "wall_ms": wall, "nsteps": nsteps, "profile": I["profile"], "ncand": ncand, "nenum": nenum})
     for t in trace:
         common.check_ints(t)
     return trace, meta
 
 
 def corpus(tier, seed, profile="release", n=None, per_instance_timeout=60, chunk=150, instances=None,
-           tag="pipe"):
+           tag="pipe", cmd=("solve",), extra=None, only_slots=False, seed_shift=0):
     """Cached pipeline corpus (cache key: repo content hash, tier, seed, profile, size).
 
     Returns dict(chunks=[trace paths], instances=[meta], tags={name: [...]}).  Each chunk is a
@@ -183,13 +201,15 @@ def corpus(tier, seed, profile="release", n=None, per_instance_timeout=60, chunk
                 info = json.load(f)
             if all(os.path.exists(c) for c in info["chunks"]):
                 return info
-        instances = [gen.gen_instance(seed, i) for i in range(n)]
+        instances = [gen.gen_instance(seed + seed_shift, i) for i in range(n)]
+        if only_slots:
+            instances = [I for I in instances if I["slots"]]
     else:
         d = os.path.join(common.WORK, "adhoc_%d_%d" % (os.getpid(), int(time.time() * 1000) % 100000))
         os.makedirs(d, exist_ok=True)
         mp = os.path.join(d, "meta.json")
     t0 = time.time()
-    results = solve_all(instances, profile, per_instance_timeout=per_instance_timeout)
+    results = solve_all(instances, profile, per_instance_timeout=per_instance_timeout, cmd=cmd, extra=extra)
     chunks, metas = [], []
     for c in range(0, len(instances), chunk):
         part = instances[c:c + chunk]
@@ -202,7 +222,7 @@ def corpus(tier, seed, profile="release", n=None, per_instance_timeout=60, chunk
         chunks.append(tp)
         metas.extend(meta)
     info = {"chunks": chunks, "instances": metas, "n": len(instances), "wall_s": time.time() - t0,
-            "profile": profile, "seed": seed, "tier": tier,
+            "profile": profile, "seed": seed + seed_shift, "tier": tier,
             "tags": {I["name"]: sorted(gen.classify(I)) for I in instances},
             "index": {I["name"]: i for i, I in enumerate(instances)}}
     with open(mp, "w") as f:
